@@ -1505,7 +1505,7 @@ fn main() {
         r.finish();
     }
 
-    let depth = r.pick(4, 6);
+    let depth = r.pick(4, 7);
     let seed_depth = r.pick(3, 4);
     explore(&r, &mut g, &mut seen, &[], depth, true, "from_empty");
     // seeded strand states: S1 = strand child forked at the parent's tip (posture AtAnchor);
